@@ -1,6 +1,7 @@
 import Model.Common.Proto
 import Model.C18.Fee
 import Model.C18.Funding
+import Model.C18.Amount
 import Generated.Fee
 open Btc Btc.C18
 
@@ -19,6 +20,21 @@ def estTok? (s : String) : Option (Except Py.PyErr Int) :=
 def renderFunded (r : Except Py.PyErr Funded) : String :=
   match r with
   | .ok f => s!"ok {f.fee} " ++ (match f.change with | some c => toString c | none => "None")
+  | .error e => "err " ++ e.name
+
+/-- a parsed Decimal: `N` | `I <0|1>` | `F <0|1> <coeff> <exp>` -/
+def dec? : List String → Option Dec
+  | ["N"] => some .nan
+  | ["I", n] => some (.inf (n == "1"))
+  | ["F", n, c, e] => do
+    let c ← c.toNat?
+    let e ← parseInt? e
+    pure (.fin (n == "1") c e)
+  | _ => none
+
+def renderDecPair (r : Except Py.PyErr (Nat × Int)) : String :=
+  match r with
+  | .ok (c, e) => s!"ok {c} {e}"
   | .error e => "err " ++ e.name
 
 /-- line protocol of property C18: see harness/c18.py -/
@@ -52,6 +68,11 @@ def handle : List String → String
       | some ch => renderFunded (fund ⟨ti, to, n, r, ch, d⟩ (fun b => if b then e1 else e2))
       | none => "bad-op"
     | _, _, _, _, _, _ => "bad-op"
+  | "amount.sats_from_btc" :: d => (dec? d).elim "bad-op" fun d => Gen.render (satsFromBtc d)
+  | ["amount.btc_from_sats", v] => (parseInt? v).elim "bad-op" fun v => renderDecPair (btcFromSats v)
+  | "feerate.from_vb" :: d => (dec? d).elim "bad-op" fun d => Gen.render (feeRateFromSatsPerVbyte d)
+  | "feerate.from_btc_kvb" :: d => (dec? d).elim "bad-op" fun d => Gen.render (feeRateFromBtcPerKvbyte d)
+  | ["feerate.vb", k] => (parseInt? k).elim "bad-op" fun k => renderDecPair (.ok (satsPerVbyte k))
   | _ => "bad-op"
 
 def main : IO Unit := runLoop handle
